@@ -13,6 +13,7 @@ non-empty value) applied to the empty store, of any length, in any order, with d
 late requests.  Reads do not change the state, so they are taken at the end of the history.
 -/
 import NoKVModel.Perc.Read
+import NoKVModel.Props.C19
 
 namespace NoKV.Props.C17
 open NoKV NoKV.Perc
@@ -225,8 +226,9 @@ theorem C17_fails_asis_rollback_hides (c : PercCfg) (hc : c.AllOps ∧ c.getSkip
   generalize c.commitChecksRollback = b5
   generalize c.rollbackChecksOwner = b6
   generalize c.ttlOverflowGuard = b7
+  generalize c.prewriteKeepsOwnLock = b8
   refine ⟨by decide, ?_⟩
-  cases b1 <;> cases b2 <;> cases b3 <;> cases b4 <;> cases b5 <;> cases b6 <;> cases b7 <;> decide
+  cases b1 <;> cases b2 <;> cases b3 <;> cases b4 <;> cases b5 <;> cases b6 <;> cases b7 <;> cases b8 <;> decide
 
 /-- `getWriteForRead` does not pass over lock-only records: the lock-only commit at 21 hides the
 value committed at 11 from a point read at 30. -/
@@ -244,8 +246,9 @@ theorem C17_fails_asis_lockonly_hides (c : PercCfg) (hc : c.AllOps ∧ c.getSkip
   generalize c.commitChecksRollback = b5
   generalize c.rollbackChecksOwner = b6
   generalize c.ttlOverflowGuard = b7
+  generalize c.prewriteKeepsOwnLock = b8
   refine ⟨by decide, ?_⟩
-  cases b1 <;> cases b2 <;> cases b3 <;> cases b4 <;> cases b5 <;> cases b6 <;> cases b7 <;> decide
+  cases b1 <;> cases b2 <;> cases b3 <;> cases b4 <;> cases b5 <;> cases b6 <;> cases b7 <;> cases b8 <;> decide
 
 /-- `collectVisibleValue` stops at a rollback record: the scan at 30 does not report the key
 whose value was committed at 11 (no lock, no newer put/delete), the rollback record of 20 hides it. -/
@@ -263,7 +266,8 @@ theorem C17_fails_asis_scan_rollback_hides (c : PercCfg) (hc : c.AllOps ∧ c.sc
   generalize c.commitChecksRollback = b5
   generalize c.rollbackChecksOwner = b6
   generalize c.ttlOverflowGuard = b7
-  cases b1 <;> cases b2 <;> cases b3 <;> cases b4 <;> cases b5 <;> cases b6 <;> cases b7 <;> decide
+  generalize c.prewriteKeepsOwnLock = b8
+  cases b1 <;> cases b2 <;> cases b3 <;> cases b4 <;> cases b5 <;> cases b6 <;> cases b7 <;> cases b8 <;> decide
 
 /-- `collectVisibleValue` treats a lock-only record as a value: the scan reports the key with an
 empty value, which no point read of the key answers (they say not-found, or — once the point
@@ -280,7 +284,8 @@ theorem C17_fails_asis_get_scan_disagree (c : PercCfg) (hc : c.AllOps ∧ c.scan
   generalize c.commitChecksRollback = b5
   generalize c.rollbackChecksOwner = b6
   generalize c.ttlOverflowGuard = b7
-  cases b1 <;> cases b2 <;> cases b3 <;> cases b4 <;> cases b5 <;> cases b6 <;> cases b7 <;> decide
+  generalize c.prewriteKeepsOwnLock = b8
+  cases b1 <;> cases b2 <;> cases b3 <;> cases b4 <;> cases b5 <;> cases b6 <;> cases b7 <;> cases b8 <;> decide
 
 /-- `handleScan` only meets keys that have a write record: a key that was prewritten (lock at
 40) but never committed before is invisible to a scan at 50, while the point read is blocked. -/
@@ -296,10 +301,97 @@ theorem C17_fails_asis_scan_unlocked (c : PercCfg) (hc : c.AllOps ∧ c.scanSees
   generalize c.commitChecksRollback = b5
   generalize c.rollbackChecksOwner = b6
   generalize c.ttlOverflowGuard = b7
+  generalize c.prewriteKeepsOwnLock = b8
   refine ⟨⟨⟨ka, 40, 100, .put, 0⟩, ?_⟩, ?_⟩ <;>
-    (cases b1 <;> cases b2 <;> cases b3 <;> cases b4 <;> cases b5 <;> cases b6 <;> cases b7 <;> decide)
+    (cases b1 <;> cases b2 <;> cases b3 <;> cases b4 <;> cases b5 <;> cases b6 <;> cases b7 <;> cases b8 <;> decide)
+
+/-! ### regardless of flushes and compactions
+
+The theorems above are about the logical content of the three column families.  The code reads
+the lock and the value of a write record through `DB.GetVersionedEntry` (`Perc/Phys.lean`:
+`lockOf`, `defsOf` = `Lsm.get`), so where rotation / flush / compaction have put the records
+matters as soon as the LSM read path is not the good one. -/
+
+open NoKV.Perc.Phys in
+/-- **Both lookups of the read path answer the most recent write** of the internal key they ask
+for (lock column: `(CFLock, key, MaxUint64)`; value of a write record: greatest default-CF version
+`≤ startTs`), whatever rotations, flushes, L0→ingest moves, ingest merges / drains and reopens
+happened, for every good LSM configuration (`C02_getv_refines` at the two internal keys).
+Not instantiated at the extracted configuration (`cfgfree`): it needs all of `Cfg.AllGood`. -/
+theorem C17_lookups_survive_maintenance (c : C19Cfg) (hc : c.lsm.AllGood) (ops : List Lsm.Op)
+    (hops : ∀ op ∈ ops, op.wf) (k : Bytes) (v : Nat) :
+    Lsm.get c.lsm (Lsm.run c.lsm {} ops) ⟨cfLock, k, Lsm.maxVersion⟩ =
+      Lsm.pick ⟨cfLock, k, Lsm.maxVersion⟩ (Lsm.logOf [] ops) ∧
+    Lsm.get c.lsm (Lsm.run c.lsm {} ops) ⟨cfDefault, k, v⟩ = Lsm.pick ⟨cfDefault, k, v⟩ (Lsm.logOf [] ops) :=
+  ⟨NoKV.Props.C02.C02_getv_refines c.lsm hc ops hops _, NoKV.Props.C02.C02_getv_refines c.lsm hc ops hops _⟩
+
+open NoKV.Perc.Phys in
+/-- transaction 20 writes `a` and commits at 25; after a memtable rotation the older transaction
+10 is rolled back on `a` (tombstone at `(a, 10)`, rollback record at 10) -/
+def wFirstHit : List Lsm.Op :=
+  [.put (defEntry ka 20 (some [2])), .put (lockEntry ka ⟨ka, 20, 100, .put, 0⟩),
+   .put (wEntry ka ⟨25, 20, .put⟩), .put (lockTomb ka), .rotate,
+   .put (wEntry ka ⟨10, 10, .rollback⟩), .put (defEntry ka 10 none)]
+
+open NoKV.Perc.Phys in
+/-- `LSM.Get` stops at the first source holding *any* version `≤` the requested one: the value
+lookup `(a, 20)` of the record committed at 25 is answered by the tombstone `(a, 10)` in the newer
+memtable — the committed value is hidden from every read at or above 25 (finding `lsm-first-hit`,
+here for the value lookup of `GetValue` / `collectVisibleValue`). -/
+theorem C17_fails_asis_lsm_first_hit (c : C19Cfg) (hc : c.lsm.crossPick = .firstHit ∧ c.lsm.tieRule = .lt) :
+    Lsm.get c.lsm (Lsm.run c.lsm {} wFirstHit) ⟨cfDefault, ka, 20⟩ = some (defEntry ka 10 none) ∧
+    Lsm.pick ⟨cfDefault, ka, 20⟩ (Lsm.logOf [] wFirstHit) = some (defEntry ka 20 (some [2])) := by
+  obtain ⟨pc, lc⟩ := c
+  dsimp only at hc ⊢
+  clear pc
+  rcases lc with ⟨d, t, cp, lo, io, im, mk, to, ob, pk, zf⟩
+  simp only at hc
+  obtain ⟨rfl, rfl⟩ := hc
+  cases d <;> cases lo <;> cases io <;> cases im <;> cases mk <;> cases to <;> cases ob <;>
+    cases pk <;> cases zf <;> decide
+
+open NoKV.Perc.Phys in
+/-- Lock and removal tombstone in two L0 tables: `GetLock` answers the removed lock again
+(`C19_fails_asis_lsm_l0_oldest_wins`), so every point read at or above its start ts is blocked by
+a transaction that is over (finding `lsm-l0-oldest-wins`, here for reads). -/
+theorem C17_fails_asis_lsm_l0_oldest_wins (c : C19Cfg)
+    (hc : c.lsm.l0SearchDir = .oldestFirst ∧ c.lsm.tieRule = .lt ∧ c.perc.ReadOps) :
+    Lsm.pick ⟨cfLock, NoKV.Props.C19.kc, Lsm.maxVersion⟩ (Lsm.logOf [] NoKV.Props.C19.wL0) = some (lockTomb NoKV.Props.C19.kc) ∧
+    ∀ (ws : List WRec) (ds : List DRec) (t : Nat), 40 ≤ t →
+      getK c.perc ⟨lockOf c.lsm (Lsm.run c.lsm {} NoKV.Props.C19.wL0) NoKV.Props.C19.kc, ws, ds⟩ t = .locked NoKV.Props.C19.lock40 := by
+  obtain ⟨h1, h2, hop, _, _, _⟩ := hc
+  obtain ⟨hl, hp⟩ := NoKV.Props.C19.C19_fails_asis_lsm_l0_oldest_wins c ⟨h1, h2⟩
+  refine ⟨hp, ?_⟩
+  intro ws ds t ht
+  have : ¬ t < 40 := by omega
+  simp [getK, hl, hop, ge_nat, NoKV.Props.C19.lock40, this]
+
+open NoKV.Perc.Phys in
+/-- The same with the two records in two ingest tables searched in descending min-key order
+(finding `lsm-ingest-minkey-order`, here for reads). -/
+theorem C17_fails_asis_lsm_ingest_minkey (c : C19Cfg)
+    (hc : c.lsm.ingestOrder = .minKeyDesc ∧ c.lsm.tieRule = .lt ∧ c.perc.ReadOps) :
+    Lsm.pick ⟨cfLock, NoKV.Props.C19.kc, Lsm.maxVersion⟩ (Lsm.logOf [] NoKV.Props.C19.wIngest) = some (lockTomb NoKV.Props.C19.kc) ∧
+    ∀ (ws : List WRec) (ds : List DRec) (t : Nat), 40 ≤ t →
+      getK c.perc ⟨lockOf c.lsm (Lsm.run c.lsm {} NoKV.Props.C19.wIngest) NoKV.Props.C19.kc, ws, ds⟩ t = .locked NoKV.Props.C19.lock40 := by
+  obtain ⟨h1, h2, hop, _, _, _⟩ := hc
+  obtain ⟨hl, hp⟩ := NoKV.Props.C19.C19_fails_asis_lsm_ingest_minkey c ⟨h1, h2⟩
+  refine ⟨hp, ?_⟩
+  intro ws ds t ht
+  have : ¬ t < 40 := by omega
+  simp [getK, hl, hop, ge_nat, NoKV.Props.C19.lock40, this]
 
 /-! ### non-vacuity -/
+
+open NoKV.Perc.Phys in
+/-- the first-hit placement produced by the request handlers themselves: the read at 30 loses the
+value committed at 25 under the LSM decisions of the tree as found, and keeps it under the good ones -/
+example :
+    let asis : Lsm.Cfg := { Lsm.Cfg.good with l0SearchDir := .oldestFirst, ingestOrder := .minKeyDesc, crossPick := .firstHit, zeroVersionFound := false }
+    let h : List POp := [.req (pw 20 .put [2]), .req (.commit 20 25 [ka]), .rotate, .req (.rollback 10 [ka])]
+    get PercCfg.good (view asis (prun PercCfg.good asis {} h)) ka 30 = .notFound ∧
+    get PercCfg.good (view Lsm.Cfg.good (prun PercCfg.good Lsm.Cfg.good {} h)) ka 30 = .value [2] := by
+  decide
 
 example : PercCfg.good.ScanGood ∧ PercCfg.good.ConflictGood := by decide
 example : PercCfg.asis.AllOps := by decide
